@@ -23,8 +23,8 @@ ASSUMPTIONS = ["pickle/deepcopy of an object are compared with the original at 1
 ANCHOR_FILES = ["gpytorch/module.py", "gpytorch/models/", "gpytorch/kernels/", "gpytorch/priors/", "gpytorch/constraints/", "gpytorch/variational/"]
 
 FAMS = ["default", "batch", "mt_kronecker", "hadamard_two_inputs", "ski", "ski_dynamic_grid", "sgpr", "svgp_whitened", "svgp_unwhitened", "svgp_meanfield", "svgp_batch_decoupled", "lmc_multitask", "priors", "rff", "rff_lazy", "natural", "svgp_fixed_inducing", "modellist"]
-SAVE_OPS = ["pred", "pred_fpv", "train_step", "load_sd", "train_eval", "set_data", "pred_nodetach", "prior"]
-VAR_SAVE_OPS = ["pred", "pred_batch", "train_step", "load_sd", "train_eval", "prior"]
+SAVE_OPS = ["pred", "pred_fpv", "train_step", "load_sd", "train_eval", "set_data", "pred_nodetach", "prior", "pred_skipvar"]
+VAR_SAVE_OPS = ["pred", "pred_batch", "train_step", "load_sd", "train_eval", "prior", "pred_skipvar"]
 VARF = {"svgp_fixed_inducing", "svgp_whitened", "svgp_unwhitened", "svgp_meanfield", "svgp_batch_decoupled", "lmc_multitask", "natural"}
 
 
@@ -38,6 +38,10 @@ def cases(tier, seed):
             if fam == "lmc_multitask":
                 ops = [o for o in ops if o != "pred_batch"]
             yield {"family": fam, "seq": [rnd.choice(ops) for _ in range(L)], "mseed": rnd.randrange(1000)}
+    # directed: a means-only prediction, then an in-place load of other values, then a means-only prediction again
+    for fam in FAMS:
+        if fam not in ("modellist",):
+            yield {"family": fam, "seq": ["pred_skipvar", "load_sd"], "mseed": rnd.randrange(1000)}
     for fam in ("svgp_whitened", "svgp_unwhitened", "svgp_meanfield", "svgp_batch_decoupled", "natural"):
         for seq in ([], ["pred"], ["train_step", "pred"]):
             yield {"family": fam, "kind": "reset_uninitialised", "seq": seq, "mseed": rnd.randrange(1000)}
@@ -288,6 +292,9 @@ def _observe(fam, m):
     out = {}
     with torch.no_grad():
         out["post"] = H.predict(m, fam.xs)
+        # the means-only path (skip_posterior_variances) has caches of its own
+        mo = H.predict(m, fam.xs, (False, True, True, True))
+        out["post_mean_only"] = (mo[0], torch.zeros(1))
         if fam.exact:
             with S.prior_mode(True):
                 o = H.call(m, fam.xs)
@@ -300,7 +307,9 @@ def _observe(fam, m):
 def _compare(ctx, mon, fam, a, b, tol, **kw):
     import torch
 
-    for key in ("post", "prior"):
+    for key in ("post", "prior", "post_mean_only"):
+        if key not in a or key not in b:
+            continue
         ctx.close(mon, torch.cat([b[key][0].reshape(-1), b[key][1].reshape(-1)]), torch.cat([a[key][0].reshape(-1), a[key][1].reshape(-1)]), tol, cls=mon + ":" + key, quantity=key, **kw)
 
 
@@ -368,6 +377,14 @@ def run_case(case, ctx):
             fr.load_state_dict(loaded)
             fr.eval()
             _compare(ctx, "state_dict_roundtrip", fam, orig2, _observe(fam, fr), (1e-7, 1e-7), **kw)
+            # copies OF the restored model (its constructor arguments are not the checkpoint's): still the checkpointed model
+            for mech2, fn2 in (("deepcopy", copy.deepcopy), ("pickle", lambda o_: pickle.loads(pickle.dumps(o_)))):
+                try:
+                    c2 = fn2(fr)
+                    c2.eval()
+                    _compare(ctx, mech2 + "_roundtrip", fam, orig2, _observe(fam, c2), (1e-7, 1e-7), of_restored_model=True, **kw)
+                except Exception as e:
+                    ctx.fail(mech2 + "_roundtrip", f"{mech2} of the restored model raised {type(e).__name__}: {str(e)[:140]}", "raise", exc=type(e).__name__, mech=mech2, of_restored_model=True, **kw)
             fv, fg = _objective(fam, fr)
             ctx.close("objective_roundtrip", fv, ov, (1e-7, 1e-7), cls="objective:state_dict", mech="state_dict", **kw)
             for a, b in zip(og, fg):
